@@ -40,8 +40,11 @@ def adapt(run):
                 out.append({"ev": "FiredElsewhere", "e": ev["tag"], "site": ev["site"]})
         elif k == "cons_done":
             e, c = d2.get(ev["d"], (-1, -1))
-            if run["cfg"]["cons"][c - 1] != "sync":
+            if run["cfg"]["cons"][c - 1] != "sync" and not ev.get("sync"):
                 out.append({"ev": "ConsumerDone", "e": e, "c": c})
+        elif k == "cons_fail":
+            e, c = d2.get(ev["d"], (-1, -1))
+            out.append({"ev": "ConsumerFail", "e": e, "c": c})
         elif k == "emit_done":
             if ev.get("exc"):
                 out.append({"ev": "EmitRaised", "e": ev["e"], "exc": ev["exc"]})
@@ -72,6 +75,10 @@ def attribute(run, trace, idx):
             return "C05", "the completion callback of element %s fired %d times during one emit" % (ev["e"], ev["fires"])
         return "C05", "reference handling in _emit differs from the specification"
     if k in ("EmitDone", "EmitRaised"):
+        failed = any(x["ev"] == "ConsumerFail" and x.get("e") == ev.get("e") for x in trace[:idx - 1])
+        if failed or k == "EmitRaised":
+            return "C16", ("a consumer of element %s raised: the emitter must get exactly that exception, once all awaitables of the emit "
+                           "have finished (observed: %s)" % (ev.get("e"), k)), ["C03"]
         return "C03", "%s at a point the specification does not allow (emit must wait for all reachable consumers)" % k
     if k in ("LateDelivery", "ConsumerDone"):
         return "C02", "%s not allowed by the specification" % k
@@ -82,7 +89,7 @@ def attribute(run, trace, idx):
 
 def consts_of(c):
     return dict(NE=c["max_elems"], K=len(c["cons"]), AsyncSet=[i + 1 for i, m in enumerate(c["cons"]) if m != "sync"],
-                MaxOut=c["max_elems"], HoldRefs=False)
+                MaxOut=c["max_elems"], HoldRefs=False, Faults=bool(c.get("faults")), FirstSync=[i + 1 for i, m in enumerate(c["cons"]) if m == "sinkfn_first_none"])
 
 
 SHAPES = ["direct", "map", "slice", "tree", "union1", "pluckmap", "flatmap", "filter", "starmap", "accumulate", "unique",
@@ -100,15 +107,15 @@ def run(tier, seed, mutant=None, only_validate=False):
                 for maxout in (1, ne):
                     # the ideal design holds references until the consumers' awaitables finish: everything holds
                     r, rec = amod.mc(res, work, "AsyncEmit", "ideal_k%d_a%s_o%d" % (k, "".join(map(str, aset)), maxout),
-                                     dict(NE=ne, K=k, AsyncSet=aset, MaxOut=maxout, HoldRefs=True),
+                                     dict(NE=ne, K=k, AsyncSet=aset, MaxOut=maxout, HoldRefs=True, FirstSync=[], Faults=True),
                                      ["EmitWaits", "FanOutOrder", "CbSafe", "RcBalance"], ["EmitsComplete"], spec="FairSpec")
                     amod.spec_violation(res, r, rec, INV_PROP, "C03", "emit")
                     # the tree: everything but CbSafe
                     r, rec = amod.mc(res, work, "AsyncEmit", "tree_k%d_a%s_o%d" % (k, "".join(map(str, aset)), maxout),
-                                     dict(NE=ne, K=k, AsyncSet=aset, MaxOut=maxout, HoldRefs=False),
+                                     dict(NE=ne, K=k, AsyncSet=aset, MaxOut=maxout, HoldRefs=False, FirstSync=[], Faults=True),
                                      ["EmitWaits", "FanOutOrder", "RcBalance"], ["EmitsComplete"], spec="FairSpec")
                     amod.spec_violation(res, r, rec, INV_PROP, "C03", "emit")
-            r, rec = amod.mc(res, work, "AsyncEmit", "tree_CbSafe", dict(NE=2, K=2, AsyncSet=[2], MaxOut=2, HoldRefs=False), ["CbSafe"])
+            r, rec = amod.mc(res, work, "AsyncEmit", "tree_CbSafe", dict(NE=2, K=2, AsyncSet=[2], MaxOut=2, HoldRefs=False, FirstSync=[], Faults=True), ["CbSafe"])
             rec["expected_violation"] = "CbSafe"
             rec["ok"] = r.violated == "CbSafe"
             if r.violated != "CbSafe":
@@ -123,6 +130,13 @@ def run(tier, seed, mutant=None, only_validate=False):
                     combos += [["coro"], ["sync", "coro"], ["future", "future", "future"]]
             for cons in combos:
                 cfgs.append({"kind": shape, "cons": cons, "max_elems": ne})
+            if shape in ("direct", "map", "filter"):
+                # the library's own sink around a plain function that hands back the awaitable of an asynchronous writer
+                for cons in (["sinkfn"], ["sinkfn_first_none"], ["sync", "sinkfn_first_none", "future"]):
+                    cfgs.append({"kind": shape, "cons": cons, "max_elems": ne})
+                # consumers whose awaitable raises
+                for cons in (["future"], ["sinkfn"], ["coro", "future"]):
+                    cfgs.append({"kind": shape, "cons": cons, "max_elems": ne, "faults": True})
         amod.node_engine(res, work, node="emit", trace_module="AsyncEmitTrace", cfgs=cfgs, consts_of=consts_of,
                          adapt=adapt, attribute=attribute, seed=seed, depth=6 if tier == "quick" else 8,
                          limit=60 if tier == "quick" else 600, nrandom=60 if tier == "quick" else 600,
